@@ -108,6 +108,24 @@ Proof.
   eapply diff_slice_faithful; eauto.
 Qed.
 
+Lemma seq_edits_faithful_bounded_lemma rs d a b ca ea cb eb df :
+  sliceable a = Some (ca, ea) -> sliceable b = Some (cb, eb) ->
+  diff_depth rs (S d) a b = Ok (Some df) ->
+  (Z.of_nat (length ea) + 1) * (Z.of_nat (length eb) + 1) <= rs ->
+  exists script edits,
+    df = DSlice a b edits /\
+    Forall2 (rendered d ca cb) script edits /\
+    Forall edit_shape script /\
+    faithful value (veq_d depth1000) ea eb script.
+Proof.
+  intros SA SB D RS. pose proof D as D0. simpl in D.
+  destruct (veq_d (S d) a b) as [[|]|]; try discriminate.
+  rewrite SA, SB in D.
+  apply bind_ok in D as (script & DS & _).
+  eapply seq_edits_faithful_lemma; eauto.
+  eapply not_exhausted; eauto.
+Qed.
+
 (** *** mappings *)
 
 Lemma map_old_spec rs d : forall old new r,
@@ -202,4 +220,37 @@ Proof.
     + intros k ov nv I1 I2 I3. destruct (C2 _ _ _ I1 I2 I3) as (df & J1 & J2).
       exists df. split; [apply in_or_app; left; exact J1 | exact J2].
     + intros k nv I1 I2. apply in_or_app. right. apply map_new_spec. exists nv. auto.
+Qed.
+
+Lemma lookup_in_some k ov : forall kvs, In (k, ov) kvs -> key_eq k k = true -> lookup key_eq k kvs <> None.
+Proof.
+  induction kvs as [|[k' v'] kvs IH]; intros IN R; [contradiction|].
+  simpl. destruct (key_eq k k') eqn:E; [discriminate|].
+  destruct IN as [Q|IN]; [inversion Q; subst; congruence|]. apply IH; assumption.
+Qed.
+
+Lemma nodup_keys_fun (kvs : list (value * value)) k v1 v2 :
+  NoDup (map fst kvs) -> In (k, v1) kvs -> In (k, v2) kvs -> v1 = v2.
+Proof.
+  induction kvs as [|[k' v'] kvs IH]; intros ND I1 I2; [contradiction|].
+  simpl in ND. inversion ND as [|? ? NI ND']; subst.
+  destruct I1 as [E1|I1]; destruct I2 as [E2|I2].
+  - congruence.
+  - inversion E1; subst. exfalso. apply NI. apply (in_map fst) in I2. exact I2.
+  - inversion E2; subst. exfalso. apply NI. apply (in_map fst) in I1. exact I1.
+  - auto.
+Qed.
+
+Lemma unchanged_key_no_edit d old new edits k ov nv :
+  map_sound d old new edits ->
+  NoDup (map fst old) -> key_eq k k = true ->
+  In (k, ov) old -> dict_get k new = Some nv -> veq_d d ov nv = Some true ->
+  forall e, ~ In (k, e) edits.
+Proof.
+  intros SOUND ND R IN G V e INE.
+  destruct (SOUND _ _ INE) as [(ov' & I1 & I2 & _)|[(ov' & nv' & df & I1 & I2 & I3 & _)|(nv' & I1 & I2 & _)]].
+  - congruence.
+  - rewrite G in I2. inversion I2; subst nv'.
+    rewrite (nodup_keys_fun _ _ _ _ ND IN I1) in V. congruence.
+  - unfold dict_get in I2. apply (lookup_in_some _ _ _ IN R). exact I2.
 Qed.
